@@ -95,7 +95,7 @@ class World:
         self.oracles = set(oracles)
         self.timecode = bool(cfg.get("timecode", False))
         self.sim = Sim(timecode=self.timecode, send_msg_timing=bool(cfg.get("timing", True)),
-                       log_level=LOGLEVELS[cfg.get("log", "error")], console=cfg.get("console", "null"))
+                       log_level=LOGLEVELS[cfg.get("log", "error")], console=cfg.get("console", "null"), debug=cfg.get("debug", False))
         self.mods: List[MMod] = []
         self.hmods: List[HMod] = []
         self.trace: List[dict] = []
@@ -185,7 +185,8 @@ class World:
             # a client that leaves the (empty) name away: the frame ends after the pid
             v2 = v2[:12]
         if op["ver"] in ("v2", "v2v1"):
-            self._send(m, P.build(P.MT_CONNECT_V2, v2, src_mod=op.get("hsrc", op["id"]), timecode=self.timecode),
+            self._send(m, P.build(P.MT_CONNECT_V2, v2, src_mod=op.get("hsrc", op["id"]), timecode=self.timecode,
+                                  dest_mod=op.get("hdm", 0), dest_host=op.get("hdh", 0)),
                        dict(kind="connect", ver="v2", **info))
         if op["ver"] in ("v1", "v2v1"):
             self._send(m, P.build(P.MT_CONNECT, v1, src_mod=op["id"], timecode=self.timecode),
@@ -196,7 +197,11 @@ class World:
 
     def op_sub(self, op):
         m = self._mod(op)
-        self._send(m, self.hdr(m, self.SUBK[op["kind"]], P.SUBSCRIBE.pack(op["type"])),
+        kw = {}
+        if "hdm" in op:
+            # a control frame is addressed to the manager whatever its header's destination fields say
+            kw = dict(dest_mod=op["hdm"], dest_host=op.get("hdh", 0))
+        self._send(m, self.hdr(m, self.SUBK[op["kind"]], P.SUBSCRIBE.pack(op["type"]), **kw),
                    dict(kind="sub", sk=op["kind"], type=op["type"]), op.get("seg", 0))
 
     def op_pub(self, op):
